@@ -43,6 +43,10 @@ theorem waitForSend_good (oneway nsw : Bool) : ev (envW oneway nsw) Generated.ch
     the premise under which "the request with this id addressed to this node" is unique -/
 theorem net_ids_good : Tie.Tree.idFacts = true := by decide
 
+/-- at most once: the library hands a message to a node's stream once (`Chan`: `sent` has no repetition) and the transport
+    is not configured to replay it: the manager adds no service config / retry policy to the dial options -/
+theorem dialOpts_good : Generated.mgr_dialOpts = ["grpc.WithDefaultCallOptions", "grpc.WithConnectParams"] := by decide
+
 end GorumsV.Tie.C06
 
 section Audit
@@ -60,6 +64,7 @@ open GorumsV.Tie.C06 GorumsV.C06
 #print axioms mcast_waits_for_confirmations
 #print axioms mcast_nosendwaiting
 #print axioms net_ids_good
+#print axioms dialOpts_good
 #print axioms GorumsV.NetP.server_receives_own_payload
 #print axioms GorumsV.NetP.handler_payload_is_addressed
 #print axioms GorumsV.NetP.issue_unique
